@@ -71,8 +71,9 @@ type lbEngine struct {
 	memo        map[string]*lstate
 	lostDumped  bool
 	recorded    map[string]bool
-	scanNeed    map[string]int64            // C14/R10: terminator -> bytes of the opener the search must have left behind
+	scanNeed    map[string]int64 // C14/R10: terminator -> bytes of the opener the search must have left behind
 	searchCalls map[*ssa.Function][]*ssa.Call
+	clsSets     map[*ssa.Function]*bset
 	scanFns     map[string]bool             // functions whose loops are byte scans: checked for unit steps and exhaustive exits
 	progress    bool                        // C03/R7: every loop iteration advances the cursor or a counter
 	tiling      bool                        // C13/R4: track the Space/Raw/Pos/End stores of tokens and comments
@@ -503,8 +504,9 @@ func (e *lbEngine) require(in *lbInst, st *lstate, instr ssa.Instruction, rule, 
 	ob.total++
 	var failed []string
 	proveBudgetInit = 3000
+	jst := e.typeRanges(st, need)
 	for i, l := range need {
-		if !st.proves(e.at, lfact{l: l}) {
+		if jst != nil && !jst.proves(e.at, lfact{l: l}) {
 			failed = append(failed, fmt.Sprintf("%s (needs %s >= 0)", what[i], e.at.show(normGE(l))))
 		}
 	}
@@ -1482,6 +1484,15 @@ func (e *lbEngine) refine(in *lbInst, st *lstate, cond ssa.Value, pol bool) *lst
 			ns = e.searchFound(in, e.searchFound(in, ns, x.X), x.Y)
 		}
 		return ns
+	case *ssa.Extract:
+		// `for i, r := range s` over a string: inside the body 0 <= i < len(s)
+		if nx, ok := x.Tuple.(*ssa.Next); ok && nx.IsString && x.Index == 0 && pol {
+			if rg, ok := nx.Iter.(*ssa.Range); ok {
+				k := linAtom(e.at.get(tupleKey{nx, 1}, e.valName(nx)+".index", false))
+				return st.ge(k, linConst(0)).ge(e.lenLin(in, rg.X).add(linConst(-1)), k)
+			}
+		}
+		return st
 	case *ssa.Call, *ssa.Phi:
 		return e.activate(st, e.atom(cond), pol)
 	}
@@ -1630,6 +1641,12 @@ func (e *lbEngine) execBlock(in *lbInst, b *ssa.BasicBlock, st *lstate, rets *[]
 			} else if fa, ok := x.Addr.(*ssa.FieldAddr); ok && fieldAddrName(fa) == "Buffer" && e.aliasOf(in, fa.X) == "file" {
 				st = st.eliminate(e.at, map[atomID]bool{e.N: true})
 				e.notes = append(e.notes, "Buffer reassigned in "+funcName(in.fn))
+			}
+		case *ssa.Next:
+			if x.IsString {
+				if id, ok := e.at.byKey[tupleKey{x, 1}]; ok {
+					st = st.eliminate(e.at, map[atomID]bool{id: true})
+				}
 			}
 		case *ssa.Alloc:
 			if e.tiling && isNamed(x.Type().(*types.Pointer).Elem(), modRoot+"/token", "TokenComment") {
@@ -2011,6 +2028,18 @@ func (e *lbEngine) execCall(in *lbInst, st *lstate, call *ssa.Call) *lstate {
 		}
 		return st.with(grow...)
 	}
+	if e.bytes && callee.Signature.Recv() == nil && len(com.Args) == 1 && isByteType(com.Args[0].Type()) && isBoolType(call.Type()) && corePkg(fnPkgPath(callee)) {
+		// a byte classifier (char.IsIdentPart, …) asked about a byte of the input: its truth set, read by interpretation
+		// over all 256 values (C14/R6), guards what is known about that byte — whatever the classifier looks like inside
+		if aid, ok := e.at.byKey[com.Args[0]]; ok {
+			if idx, ok := st.valIdx(aid); ok {
+				if set, ok := e.classifierSet(callee); ok {
+					g := e.atom(call)
+					return st.withGuardedByte(g, true, idx, set).withGuardedByte(g, false, idx, set.complement())
+				}
+			}
+		}
+	}
 	inlinable := callee.Blocks != nil && len(e.frames) < lbMaxDepth && corePkg(fnPkgPath(callee)) && e.inScope(callee)
 	if !inlinable {
 		for _, a := range com.Args {
@@ -2061,6 +2090,31 @@ func (e *lbEngine) searchFound(in *lbInst, st *lstate, v ssa.Value) *lstate {
 		need = e.lenLin(in, call.Call.Args[1])
 	}
 	return st.ge(e.lenLin(in, call.Call.Args[0]), r.add(need))
+}
+
+func (e *lbEngine) classifierSet(fn *ssa.Function) (bset, bool) {
+	if e.clsSets == nil {
+		e.clsSets = map[*ssa.Function]*bset{}
+	}
+	if s, ok := e.clsSets[fn]; ok {
+		if s == nil {
+			return bset{}, false
+		}
+		return *s, true
+	}
+	ts, ok := e.w.predicateTrueSet(fn)
+	if !ok {
+		e.clsSets[fn] = nil
+		return bset{}, false
+	}
+	var out bset
+	for c := 0; c < 256; c++ {
+		if ts[c] {
+			out.add(byte(c))
+		}
+	}
+	e.clsSets[fn] = &out
+	return out, true
 }
 
 func (e *lbEngine) inScope(fn *ssa.Function) bool {
@@ -2549,6 +2603,42 @@ func (e *lbEngine) progressObligations(in *lbInst, fn *ssa.Function, b *ssa.Basi
 	}
 }
 
+// typeRanges: what the Go type of the values behind the atoms of the terms guarantees (an unsigned value is not negative,
+// a byte is at most 255): added to the state an obligation is judged in.
+func (e *lbEngine) typeRanges(st *lstate, need []lin) *lstate {
+	if st == nil {
+		return st
+	}
+	seen := map[atomID]bool{}
+	for _, l := range need {
+		for _, t := range l.t {
+			if seen[t.a] || e.at.isLen[t.a] {
+				continue
+			}
+			seen[t.a] = true
+			v, ok := e.owner[t.a]
+			if !ok || e.at.byKey[v] != t.a {
+				continue
+			}
+			b, ok := v.Type().Underlying().(*types.Basic)
+			if !ok || b.Info()&types.IsUnsigned == 0 {
+				continue
+			}
+			st = st.ge(linAtom(t.a), linConst(0))
+			switch b.Kind() {
+			case types.Uint8:
+				st = st.ge(linConst(255), linAtom(t.a))
+			case types.Uint16:
+				st = st.ge(linConst(65535), linAtom(t.a))
+			}
+			if st == nil {
+				return nil
+			}
+		}
+	}
+	return st
+}
+
 func (e *lbEngine) requireAt(st *lstate, fn *ssa.Function, instr ssa.Instruction, rule, construct string, what []string, need []lin) {
 	key := rule + " " + construct
 	ob := e.obs[key]
@@ -2560,8 +2650,9 @@ func (e *lbEngine) requireAt(st *lstate, fn *ssa.Function, instr ssa.Instruction
 	ob.total++
 	var failed []string
 	proveBudgetInit = 3000
+	jst := e.typeRanges(st, need)
 	for i, l := range need {
-		if !st.proves(e.at, lfact{l: l}) {
+		if jst != nil && !jst.proves(e.at, lfact{l: l}) {
 			failed = append(failed, fmt.Sprintf("%s (needs %s >= 0)", what[i], e.at.show(normGE(l))))
 		}
 	}
@@ -2987,7 +3078,7 @@ func ruleC03R9(w *World, r *Report) {
 // ruleC13R6: no token but <eof> is empty.
 func ruleC13R6(w *World, r *Report) {
 	const rule = "C13/R6"
-	r.rule(rule, "every return of (*Lexer).consumeToken and (*Lexer).consumeFieldToken has moved the cursor by at least one byte since entry, or the cursor is at the end of the input (the <eof> arm): no token other than <eof> is empty, and the recovering parser's skip loops reach <eof> — LEXBOUNDS with byte facts (a scan that starts on a byte of its own class runs at least once), callees inlined", 8)
+	r.rule(rule, "every return of (*Lexer).consumeToken and (*Lexer).consumeFieldToken has moved the cursor by at least one byte since entry, or the cursor is at the end of the input (the <eof> arm): no token other than <eof> is empty, and the recovering parser's skip loops reach <eof> — LEXBOUNDS with byte facts (a scan that starts on a byte of its own class runs at least once), callees inlined", 4)
 	defer debug.SetGCPercent(debug.SetGCPercent(1000))
 	nt := w.fn(w.Mem, "(*Lexer).nextToken")
 	if nt == nil {
@@ -3638,7 +3729,7 @@ func (w *World) lexDeepRun(e *lbEngine) *lbEngine {
 // ruleC09R5: the range of a lexer error is ordered.
 func ruleC09R5(w *World, r *Report) {
 	const rule = "C09/R5"
-	r.rule(rule, "every (pos, end) pair the lexer hands to File.Position satisfies 0 <= pos <= end (and end <= len(Buffer), C03/R6): the Position of an *Error of the lexer has 0 <= Pos <= End <= len(input) — proved at the call inside errorfAtPosition in every calling context of the deep LEXBOUNDS run", 14)
+	r.rule(rule, "every (pos, end) pair the lexer hands to File.Position satisfies 0 <= pos <= end (and end <= len(Buffer), C03/R6): the Position of an *Error of the lexer has 0 <= Pos <= End <= len(input) — proved at the call inside errorfAtPosition in every calling context of the deep LEXBOUNDS run", 7)
 	defer debug.SetGCPercent(debug.SetGCPercent(1000))
 	e := w.lexDeepRun(w.newLexBounds())
 	n := 0
@@ -3668,7 +3759,7 @@ func ruleC09R5(w *World, r *Report) {
 
 func ruleC03R6(w *World, r *Report) {
 	const rule = "C03/R6"
-	r.rule(rule, "byte-level code never indexes outside its operand: in the methods of *Lexer (interpreted from (*Lexer).nextToken for noPanic=false and noPanic=true, callees inlined in context) and in token/quote.go and char/, every index s[i] has 0 <= i < len(s), every slice s[a:b] has 0 <= a <= b <= len(s), every assignment to Lexer.pos keeps 0 <= pos <= len(Buffer), and every error position handed to File.Position is <= len(Buffer) — proved in a relational linear-inequality domain over pos, len(Buffer), loop counters and string lengths; Lexer.pos is written only in lexer.go", 60)
+	r.rule(rule, "byte-level code never indexes outside its operand: in the methods of *Lexer (interpreted from (*Lexer).nextToken for noPanic=false and noPanic=true, callees inlined in context) and in token/quote.go and char/, every index s[i] has 0 <= i < len(s), every slice s[a:b] has 0 <= a <= b <= len(s), every assignment to Lexer.pos keeps 0 <= pos <= len(Buffer), and every error position handed to File.Position is <= len(Buffer) — proved in a relational linear-inequality domain over pos, len(Buffer), loop counters and string lengths; Lexer.pos is written only in lexer.go", 30)
 	defer debug.SetGCPercent(debug.SetGCPercent(1000))
 	e := w.newLexBounds()
 	e.trace = strings.HasPrefix(rule, verboseRule()) && verboseRule() != "" && verboseRule() != "1"
@@ -3727,7 +3818,7 @@ func ruleC03R6(w *World, r *Report) {
 	}
 	// C03/R7: strict progress of the loops — a second, cheap run: every function of the scope on its own,
 	// loop-free leaf helpers inlined, other lexer methods summarised as "move the cursor forward"
-	r.rule("C03/R7", "every loop of the byte-level code makes strict progress: on each back edge either Lexer.pos is at least one byte further than at the start of the iteration (so a skipN(n) counts only where n >= 1 is proved; `pos != saved` counts because the cursor only moves forward) or an integer variable of the loop head has grown by at least one, or the loop ranges over a finite value", 12)
+	r.rule("C03/R7", "every loop of the byte-level code makes strict progress: on each back edge either Lexer.pos is at least one byte further than at the start of the iteration (so a skipN(n) counts only where n >= 1 is proved; `pos != saved` counts because the cursor only moves forward) or an integer variable of the loop head has grown by at least one, or the loop ranges over a finite value", 6)
 	e2 := w.newLexBounds()
 	e2.progress, e2.shallow, e2.shallowLeaf = true, true, true
 	e2.trace = verboseRule() != "" && verboseRule() != "1" && strings.HasPrefix("C03/R7", verboseRule())
@@ -3792,7 +3883,7 @@ func verboseRule() string { return os.Getenv("VERIF_VERBOSE") }
 // ruleC14R8: comment scanning is exhaustive.
 func ruleC14R8(w *World, r *Report) {
 	const rule = "C14/R8"
-	r.rule(rule, "comment scanning is exhaustive: in (*Lexer).skipCommentUntil (interpreted from (*Lexer).skipComment in the LEXBOUNDS domain) every iteration of the search loop that continues has moved the cursor by exactly one byte, after testing for the terminator at the position it leaves, and the loop gives up without a match only when the terminator no longer fits between the cursor and the end of input — so a terminator at any position, including the very end, is found; and every index, slice and cursor move of the comment scanner stays within the input (a comment opener is skipped only as far as it was examined)", 8)
+	r.rule(rule, "comment scanning is exhaustive: in (*Lexer).skipCommentUntil (interpreted from (*Lexer).skipComment in the LEXBOUNDS domain) every iteration of the search loop that continues has moved the cursor by exactly one byte, after testing for the terminator at the position it leaves, and the loop gives up without a match only when the terminator no longer fits between the cursor and the end of input — so a terminator at any position, including the very end, is found; and every index, slice and cursor move of the comment scanner stays within the input (a comment opener is skipped only as far as it was examined)", 4)
 	defer debug.SetGCPercent(debug.SetGCPercent(1000))
 	e := w.newLexBounds()
 	e.scanFns = map[string]bool{"skipCommentUntil": true}
@@ -3898,7 +3989,7 @@ func ruleC14R8(w *World, r *Report) {
 // ruleC15R5: the quoting helpers never index outside their operand (the token/quote.go and char/ part of C03/R6).
 func ruleC15R5(w *World, r *Report) {
 	const rule = "C15/R5"
-	r.rule(rule, "QuoteSQLString, QuoteSQLBytes, QuoteSQLIdent and the char helpers never index or slice outside their operand, for any argument (QuoteSQLIdent: any non-empty name) — LEXBOUNDS over token/quote.go and char/", 8)
+	r.rule(rule, "QuoteSQLString, QuoteSQLBytes, QuoteSQLIdent and the char helpers never index or slice outside their operand, for any argument (QuoteSQLIdent: any non-empty name) — LEXBOUNDS over token/quote.go and char/", 4)
 	defer debug.SetGCPercent(debug.SetGCPercent(1000))
 	e := w.newLexBounds()
 	e.trace = verboseRule() != "" && verboseRule() != "1" && strings.HasPrefix(rule, verboseRule())
@@ -3934,7 +4025,7 @@ func ruleC15R5(w *World, r *Report) {
 // ruleC13R4: Space and Raw of the comments and of the token tile the input.
 func ruleC13R4(w *World, r *Report) {
 	const rule = "C13/R4"
-	r.rule(rule, "the texts recorded by (*Lexer).nextToken tile the input: every Space and Raw is a slice Buffer[a:b] of the input; a comment's or token's Space begins where the previous comment or token ended (the cursor at entry for the first one), Space ends where Raw begins, Pos is where Raw begins and End where it ends, on every return the cursor is at the End last recorded and Pos, End, Space and Raw of the token have been stored (Space and Raw not for a token marked <bad>) — proved as equalities of linear terms over the cursor in the LEXBOUNDS domain (callees only move the cursor forward)", 8)
+	r.rule(rule, "the texts recorded by (*Lexer).nextToken tile the input: every Space and Raw is a slice Buffer[a:b] of the input; a comment's or token's Space begins where the previous comment or token ended (the cursor at entry for the first one), Space ends where Raw begins, Pos is where Raw begins and End where it ends, on every return the cursor is at the End last recorded and Pos, End, Space and Raw of the token have been stored (Space and Raw not for a token marked <bad>) — proved as equalities of linear terms over the cursor in the LEXBOUNDS domain (callees only move the cursor forward)", 4)
 	defer debug.SetGCPercent(debug.SetGCPercent(1000))
 	root := w.fn(w.Mem, "(*Lexer).nextToken")
 	if root == nil {
